@@ -33,6 +33,14 @@ answer from a parameter `[EqOracle]`:
   statements fail for it — the recorded finding `builder-number-compare
   [inexact-number-equals]` (0.1 held at two precisions prints as "0.1" twice).
 
+* THE BRIDGE (section "THE BRIDGE" below): on integers and infinities of any precisions
+  `rawNumberEqual` never consults the text and IS exact comparison; there `run`, `newValue`,
+  `refine` give the same outcome under `textOracle`, `partialOracle` and the total exact
+  oracle `D05.idealOracle`, so the `[ExactOracle]` theorems hold FOR THE CODE'S ORACLE
+  (`…_code_integers`); the harness diffs the code against the model under `idealOracle`
+  on exactly those inputs (`rfn.runi`).  For two non-integers of equal precision the partial
+  oracle answers too, but the agreement with the code there is searched (`rfn.runx`), not proved.
+
 Full statements that are false of the code are kept as `def … : Prop` with a
 `…_partial` theorem and `…_counterexample` theorems (witnesses = replays of the
 recorded findings).
@@ -41,6 +49,11 @@ import CtyModel.Lemmas.RefineBase
 import CtyModel.Lemmas.RefinePrefix
 import CtyModel.Generated.Delims
 import CtyModel.Lemmas.RefineFnsTie
+import CtyModel.Lemmas.d05Bridge
+import CtyModel.Lemmas.d05Chain
+import CtyModel.Lemmas.d05Prefix
+import CtyModel.Lemmas.d05Range
+import CtyModel.Lemmas.d05With
 namespace CtyModel
 namespace C05
 open Refine
@@ -166,6 +179,26 @@ theorem refine_exact_partial [ExactOracle] (v w : Value) (cs : List RefineCall)
   obtain ⟨hs, hw', _, _, hex⟩ := run_effect hd' hr
   rw [(newValue_exact (hw' hwf) (by rw [hs.1, ho]; exact hk)
     (by rw [Builder.isDyn_congr hs]; exact hd') hn).2, hex hc x, init_γ hi hk x hx]
+
+/-- END TO END, in one statement: what a caller reads off `Range()` of the value returned by
+`v.Refine().<calls>.NewValue()` — be it still unknown, collapsed to a known value, or null — admits exactly the
+concrete values the receiver admitted that satisfy every stated constraint: `γV v ∩ ⋂ ⟦c⟧`.
+(`ValueRange.admitsN` = the accessors `CouldBeNull`, `NumberLowerBound`/`UpperBound`, `StringPrefix`,
+`LengthLowerBound`/`UpperBound`, and "definitely null" as `Includes` reads it; exact number equality; no call of
+the dropped shape.) -/
+theorem refine_range_exact [ExactOracle] (v w : Value) (cs : List RefineCall)
+    (hk : v.unmark.isKnown = false) (hd : isDynVal v.unmark = false)
+    (hc : cs.all (fun c => !c.dropped) = true) (h : refine v cs = .ok w) :
+    ∃ vr, range w.unmark = .ok vr ∧ vr.ty = v.ty ∧
+      ∀ x, x.fits = true → vr.admitsN x = (γV v x && cs.all (fun c => den c x)) := by
+  obtain ⟨b, b', hi, hr, hn⟩ := refine_ok h
+  obtain ⟨ho, _, hwf, _, _⟩ := init_ok hi
+  have hd' : b.isDyn = false := by unfold Builder.isDyn; rw [ho]; exact hd
+  obtain ⟨hs, hw', _, _, hex⟩ := run_effect hd' hr
+  obtain ⟨vr, h1, h2, h3⟩ := D05.newValue_range_exact (hw' hwf) (by rw [hs.1, ho]; exact hk)
+    (by rw [Builder.isDyn_congr hs]; exact hd') hn
+  refine ⟨vr, h1, by rw [h2, hs.1, ho]; rfl, fun x hx => ?_⟩
+  rw [h3 x hx, hex hc x, init_γ hi hk x hx]
 
 /-- `Range()` reports exactly what was recorded, for every oracle: the accessors of
 the returned value's range (`CouldBeNull`, `NumberLowerBound`/`UpperBound` with
@@ -438,7 +471,8 @@ theorem safePrefix_le_lastBoundary (delims nfc : List UInt8) (lastBoundary : Int
 /-- Hence, under the streaming law of normalisation `E.lastBoundary_stable` (a field of
 `Ext`, probed against x/text on every run): the safe prefix of `p` is a byte prefix of
 NFC(p ++ c) for EVERY continuation `c`.  (When NFC(p) has no normalisation boundary at all,
-`lastBoundary = −1`, the law says nothing; that case is covered by search only.) -/
+`lastBoundary = −1`, this law says nothing; see `safePrefix_noBoundary_shape` and
+`safePrefix_continuation_safe_all` below for that case.) -/
 theorem safePrefix_continuation_safe (E : Ext) (delims p c : List UInt8)
     (h : 0 ≤ E.lastBoundary (E.nfc p)) : E.safe delims p <+: E.nfc (p ++ c) :=
   E.safe_continuation delims p c h
@@ -450,6 +484,50 @@ theorem safePrefix_constraint_holds (E : Ext) (delims p c : List UInt8) (s : Str
     den (.stringPrefix s) (.str (E.nfc (p ++ c))) = true := by
   simp only [den, hs]
   exact List.isPrefixOf_iff_prefix.mpr (E.safe_continuation delims p c h)
+
+/-! ### … also when the prefix has no normalisation boundary at all (`LastBoundary = −1`)
+
+A prefix made only of characters that may combine backwards (combining marks, Hangul vowel / trailing jamo, …) — the
+alphabet the property singles out.  The boundary cut is skipped and only the grapheme scan decides. -/
+
+/-- Structural, for any ASCII delimiter table and any scanner answers: on a normalised prefix without ASCII bytes
+the delimiter exception cannot fire; the result is the text before the LAST cluster the scanner reported, and
+nothing at all when it reported a single one. -/
+theorem safePrefix_noBoundary_shape (delims nfc : List UInt8) (advances : List Nat)
+    (hd : ∀ d ∈ delims, d < 128) (hn : ∀ b ∈ nfc, 128 ≤ b) :
+    safeKnownPrefix delims nfc (-1) advances = nfc.take (scanLoop advances nfc.length 0 0).1 ∧
+    ((scanLoop advances nfc.length 0 0).1 = 0 → safeKnownPrefix delims nfc (-1) advances = []) :=
+  ⟨D05.safeKnownPrefix_noBoundary delims nfc advances hd hn,
+   D05.safeKnownPrefix_noBoundary_single delims nfc advances hd hn⟩
+
+/-- Continuation safety for EVERY prefix and every continuation — boundary or not — for the delimiter table of the
+source, under the laws of `D05.ExtNB`: the streaming law (as before), "an ASCII byte is a normalisation boundary",
+and "without a normalisation boundary, the text before the last scanned grapheme cluster is stable" (all three
+fields, probed against x/text and textseg on every run; satisfiable with the no-boundary case occurring:
+`D05.ExtNB.toy`). -/
+theorem safePrefix_continuation_safe_all (E : D05.ExtNB) (p c : List UInt8) :
+    E.toExt.safe delimiters p <+: E.nfc (p ++ c) :=
+  E.safe_continuation_all delimiters (by decide) p c
+
+/-- In the vocabulary of refinements, without the side condition of `safePrefix_constraint_holds`: the constraint
+that `StringPrefix(p)` records holds of every string that extends `p`. -/
+theorem safePrefix_constraint_holds_all (E : D05.ExtNB) (p c : List UInt8) (s : String)
+    (hs : bytes s = E.toExt.safe delimiters p) : den (.stringPrefix s) (.str (E.nfc (p ++ c))) = true := by
+  simp only [den, hs]
+  exact List.isPrefixOf_iff_prefix.mpr (safePrefix_continuation_safe_all E p c)
+
+/-- The caller's prefix, end to end (audit item: `⟦StringPrefix⟧` is defined on the string that was RECORDED): after
+an accepted `StringPrefix(p)` — recording `s = SafeKnownPrefix(p)` — every string `NFC(p ++ c)` that extends the
+caller's prefix and was admitted before is still admitted. -/
+theorem stringPrefix_keeps_every_continuation [ExactOracle] (E : D05.ExtNB) (b b' : Builder) (p c : List UInt8)
+    (s : String) (hs : bytes s = E.toExt.safe delimiters p) (hd : b.isDyn = false)
+    (h : step b (.stringPrefix s) = .ok b') (hx : γB b (.str (E.nfc (p ++ c))) = true) :
+    γB b' (.str (E.nfc (p ++ c))) = true := by
+  rw [exact_partial b b' _ hd h _ rfl, hx, safePrefix_constraint_holds_all E p c s hs]; rfl
+
+-- non-vacuity: in the toy instance the prefix [200, 201] has no boundary, and a non-empty safe prefix
+example : D05.ExtNB.toy.lastBoundary (D05.ExtNB.toy.nfc [200, 201]) = -1 ∧
+    D05.ExtNB.toy.toExt.safe delimiters [200, 201] = [200] := by decide
 
 /-! ## Non-vacuity: the hypotheses used above are satisfiable by non-trivial values -/
 
@@ -486,6 +564,14 @@ example : (RefineCall.lenUpper 1).isRange = true ∧ (RefineCall.lenUpper 1).exc
 -- `range_reports_exact`, `newValue_known_exact`: `NewValue` returns, and the result is unknown
 example : ∃ w, @newValue textOracle sampleNum = .ok w ∧ w.isKnown = false := ⟨_, rfl, rfl⟩
 
+-- `refine_range_exact`: an unknown number; a chain that collapses to the known number 2 (the bounds held at 64 and
+-- 512 bits), and one that stays unknown — both accepted, no call of the dropped shape
+example : @refine exactPartialOracle.toEqOracle ⟨.number, .unk .unref⟩
+      [.notNull, .numRangeInclusive (.known (.fin false 1 1 64)) (.known (.fin false 1 1 512))] =
+      .ok ⟨.number, .n (.fin false 1 1 64)⟩ ∧
+    (@refine exactPartialOracle.toEqOracle ⟨.number, .unk .unref⟩
+      [.numLower (.known (.fin false 1 1 64)) false]).isOk = true := ⟨rfl, rfl⟩
+
 -- `known_is_assertion`: the known number 2 with two assertions that hold of it
 example : concOf ⟨.number, .n (.fin false 1 1 64)⟩ = some (.num (.fin false 1 1 64)) ∧
     (@refine exactPartialOracle.toEqOracle ⟨.number, .n (.fin false 1 1 64)⟩
@@ -495,6 +581,220 @@ example : concOf ⟨.number, .n (.fin false 1 1 64)⟩ = some (.num (.fin false 
 -- the streaming law is satisfiable, with a boundary present
 example : 0 ≤ Ext.inert.lastBoundary (Ext.inert.nfc [97, 45]) := by decide
 
+
+/-! ## THE BRIDGE: the theorems above, for the code's own number equality
+
+The theorems marked `[ExactOracle]` are about an idealised equality.  The code's `Value.Equals` on numbers is
+`rawNumberEqual` (`textOracle`), which consults math/big's shortest decimal text only for two non-integers of the
+same sign.  On integers and infinities — of ANY precisions, mixed freely — it never does, and there it IS exact
+comparison (`code_equality_exact_on_integers`); the whole builder then behaves identically under the code's oracle,
+the partial oracle and the total exact oracle `D05.idealOracle` (`run_code_eq_exact`, `refine_code_eq_exact`:
+same value, same panic), so every `[ExactOracle]` theorem transfers to what the driver actually runs
+(`rfn.run`; the harness also diffs the code against `rfn.runi`, the model under `idealOracle`, on exactly these
+inputs).  `D05.builderOk P b` / `D05.callOk P c` / `D05.valueOk P v`: every number the builder, the call, the value
+carries satisfies `P`.  The general form, for any class `P` of numbers on which `rawNumberEqual` is exact
+(`D05.TextExactOn P`), is `D05.run_congr` … in `Lemmas/d05Bridge.lean`. -/
+section Bridge
+open D05
+
+/-- The audit's missing lemma, on integers and infinities: the code's equality is exact comparison, and it is the
+answer of the partial oracle (which does answer there: `needsText = false`). -/
+theorem code_equality_exact_on_integers (a b : Num) (ha : intLike a = true) (hb : intLike b = true) :
+    textOracle.eq a b = some (Num.cmp a b == 0) ∧ needsText a b = false ∧ textOracle.eq a b = numEqPartial a b :=
+  ⟨agree_text_ideal intLike_textExact a b ha hb, intLike_needsText ha,
+   agree_text_partial intLike_textExact (fun _ _ h _ => intLike_needsText h) a b ha hb⟩
+
+/-- FULL STATEMENT of the bridge as the audit put it: wherever the partial oracle answers, the code's equality gives
+the same answer.  Not proved and not refuted for numbers in normal form (two non-integers of equal precision and
+sign: it would need "math/big's shortest decimal text is injective at a fixed precision"); FALSE of the model on a
+mantissa that is not in normal form, which the wire codec never delivers — see the counterexample. -/
+def OracleBridge : Prop := ∀ a b, needsText a b = false → textOracle.eq a b = numEqPartial a b
+
+/-- the model's `isInt` reads the exponent, so 2 written as 4·2⁻¹ is "not an integer" for `rawEqual` (an artefact of
+the representation, not of the code: `Num.mk` and the codec deliver odd mantissas) -/
+theorem oracle_bridge_counterexample : ¬ OracleBridge := by
+  intro h
+  have := h (.fin false 4 (-1) 53) (.fin false 1 1 64) (by decide)
+  revert this
+  decide
+
+/-- The strongest part proved: the bridge on integers and infinities (`code_equality_exact_on_integers`), i.e. for
+every pair the text is not consulted for. -/
+theorem oracle_bridge_partial (a b : Num) (ha : intLike a = true) (hb : intLike b = true) :
+    needsText a b = false ∧ textOracle.eq a b = numEqPartial a b :=
+  (code_equality_exact_on_integers a b ha hb).2
+
+/-- Agreement of whole chains: on integer inputs the code's oracle, the partial oracle and the total exact oracle
+give the SAME outcome of `run` — accepted builder, panic, everything. -/
+theorem run_code_eq_exact (b : Builder) (cs : List RefineCall) (hb : builderOk intLike b = true)
+    (hc : cs.all (callOk intLike) = true) :
+    @run textOracle b cs = @run idealOracle b cs ∧ @run textOracle b cs = @run partialOracle b cs :=
+  ⟨run_congr (agree_text_ideal intLike_textExact) hb hc,
+   run_congr (agree_text_partial intLike_textExact (fun _ _ h _ => intLike_needsText h)) hb hc⟩
+
+/-- … and of `v.Refine().<calls>.NewValue()`. -/
+theorem refine_code_eq_exact (v : Value) (cs : List RefineCall) (hv : valueOk intLike v = true)
+    (hc : cs.all (callOk intLike) = true) :
+    @refine textOracle v cs = @refine idealOracle v cs ∧ @refine textOracle v cs = @refine partialOracle v cs :=
+  ⟨refine_congr (agree_text_ideal intLike_textExact) hv hc,
+   refine_congr (agree_text_partial intLike_textExact (fun _ _ h _ => intLike_needsText h)) hv hc⟩
+
+/-- Accepted calls keep the builder's numbers integers (so the hypothesis of the theorems below is about the
+receiver and the arguments only). -/
+theorem run_keeps_integers [EqOracle] (b b' : Builder) (cs : List RefineCall) (h : run b cs = .ok b')
+    (hb : builderOk intLike b = true) (hc : cs.all (callOk intLike) = true) : builderOk intLike b' = true :=
+  run_numsOk h hb hc
+
+/-- "never widens its range" FOR THE CODE'S ORACLE on integer inputs: `Narrows textOracle`, which is false in
+general (`narrows_text_counterexample`), holds for every builder and call sequence whose numbers are integers or
+infinities, of any precisions. -/
+theorem narrows_code_integers (b b' : Builder) (cs : List RefineCall) (hb : builderOk intLike b = true)
+    (hc : cs.all (callOk intLike) = true) (h : @run textOracle b cs = .ok b') (x : Conc)
+    (hx : γB b' x = true) : γB b x = true :=
+  @narrows_partial exactIdealOracle b b' cs ((run_code_eq_exact b cs hb hc).1 ▸ h) x hx
+
+/-- … between the value refined and the value returned. -/
+theorem refine_narrows_code_integers (v w : Value) (cs : List RefineCall) (hv : valueOk intLike v = true)
+    (hc : cs.all (callOk intLike) = true) (h : @refine textOracle v cs = .ok w) (x : Conc)
+    (hx : γV w x = true) : γV v x = true :=
+  @refine_narrows exactIdealOracle v w cs ((refine_code_eq_exact v cs hv hc).1 ▸ h) x hx
+
+/-- `γ (step b c) = γ b ∩ ⟦c⟧` FOR THE CODE'S ORACLE on integer inputs (at every concrete value `x`, integer or
+not, except where a dropped bound bites). -/
+theorem exact_code_integers (b b' : Builder) (c : RefineCall) (hd : b.isDyn = false)
+    (hb : builderOk intLike b = true) (hc : callOk intLike c = true) (h : @step textOracle b c = .ok b') (x : Conc)
+    (hx : c.droppedAt x = false) : γB b' x = (γB b x && den c x) :=
+  @exact_partial exactIdealOracle b b' c hd
+    ((step_congr (agree_text_ideal intLike_textExact) hb hc) ▸ h) x hx
+
+/-- End to end FOR THE CODE'S ORACLE on integer inputs: the value returned admits exactly what the receiver admitted
+intersected with every stated constraint. -/
+theorem refine_exact_code_integers (v w : Value) (cs : List RefineCall) (hk : v.unmark.isKnown = false)
+    (hd : isDynVal v.unmark = false) (hdr : cs.all (fun c => !c.dropped) = true)
+    (hv : valueOk intLike v = true) (hc : cs.all (callOk intLike) = true)
+    (h : @refine textOracle v cs = .ok w) (x : Conc) (hx : x.fits = true) :
+    γV w x = (γV v x && cs.all (fun c => den c x)) :=
+  @refine_exact_partial exactIdealOracle v w cs hk hd hdr ((refine_code_eq_exact v cs hv hc).1 ▸ h) x hx
+
+/-- The end-to-end statement FOR THE CODE'S ORACLE on integer inputs: `Range()` of the value the code returns
+admits exactly `γV v ∩ ⋂ ⟦c⟧`. -/
+theorem refine_range_exact_code_integers (v w : Value) (cs : List RefineCall) (hk : v.unmark.isKnown = false)
+    (hd : isDynVal v.unmark = false) (hdr : cs.all (fun c => !c.dropped) = true)
+    (hv : valueOk intLike v = true) (hc : cs.all (callOk intLike) = true)
+    (h : @refine textOracle v cs = .ok w) :
+    ∃ vr, range w.unmark = .ok vr ∧ vr.ty = v.ty ∧
+      ∀ x, x.fits = true → vr.admitsN x = (γV v x && cs.all (fun c => den c x)) :=
+  @refine_range_exact exactIdealOracle v w cs hk hd hdr ((refine_code_eq_exact v cs hv hc).1 ▸ h)
+
+/-- "a constraint that contradicts earlier constraints is rejected" FOR THE CODE'S ORACLE on integer inputs:
+`RejectsContradiction textOracle` restricted to integer bounds and inclusive-or-finite new bounds.  The text
+oracle always answers, so "not accepted" here means: the call PANICS. -/
+theorem rejects_contradiction_code_integers (b : Builder) (c : RefineCall) (hw : b.wf = true)
+    (hl : b.wip.lenOk = true) (hr : c.isRange = true) (hx : c.exclusiveInfinite = false)
+    (hb : builderOk intLike b = true) (hc : callOk intLike c = true)
+    (h1 : ∃ x, x ≠ .null ∧ γB b x = true) (h2 : ∀ x, x ≠ .null → (γB b x && den c x) = false)
+    (b' : Builder) : @step textOracle b c ≠ .ok b' := fun h =>
+  @rejects_contradiction_partial exactIdealOracle b c hw hl hr hx h1 h2 b'
+    ((step_congr (agree_text_ideal intLike_textExact) hb hc) ▸ h)
+
+/-- "becomes a known value only if that value admits exactly what the refinement admitted" FOR THE CODE'S ORACLE
+when the recorded bounds are integers. -/
+theorem newValue_known_exact_code_integers (b : Builder) (w : Value) (hw : b.wf = true)
+    (hk : b.orig.isKnown = false) (hd : b.isDyn = false) (hb : builderOk intLike b = true)
+    (h : @newValue textOracle b = .ok w) (x : Conc) : γV w x = γB b x :=
+  @newValue_known_exact exactIdealOracle b w hw hk hd
+    ((newValue_congr (agree_text_ideal intLike_textExact) hb) ▸ h) x
+
+/-- "a constraint that contradicts a known value is rejected" FOR THE CODE'S ORACLE: a known integer (or any
+non-number) and integer bounds. -/
+theorem known_is_assertion_code_integers (v w : Value) (cs : List RefineCall) (x : Conc)
+    (hk : v.unmark.isKnown = true) (hx : concOf v.unmark = some x) (hv : valueOk intLike v = true)
+    (hc : cs.all (callOk intLike) = true) (h : @refine textOracle v cs = .ok w) :
+    w = v.unmark.withMarks v.marks ∧ cs.all (fun c => den c x) = true :=
+  @known_is_assertion exactIdealOracle v w cs x hk hx ((refine_code_eq_exact v cs hv hc).1 ▸ h)
+
+-- non-vacuity: a receiver already refined to [1 (64 bit), +∞), a bound 3 held at 512 bits (mixed precisions),
+-- accepted by the CODE'S oracle; a contradiction (x ≤ 0 after x ≥ 1) that the code's oracle rejects
+example : builderOk intLike sampleNum = true ∧
+    callOk intLike (.numUpper (.known (.fin false 3 0 512)) false) = true ∧
+    @step textOracle sampleNum (.numUpper (.known (.fin false 3 0 512)) false) =
+      .ok { sampleNum with wip := .num .u (some ⟨.fin false 1 0 64, true⟩) (some ⟨.fin false 3 0 512, false⟩) } :=
+  ⟨rfl, rfl, rfl⟩
+example : callOk intLike (.numUpper (.known (.fin false 0 0 53)) true) = true ∧
+    (@step textOracle sampleNum (.numUpper (.known (.fin false 0 0 53)) true)).isPanic = true := ⟨rfl, rfl⟩
+example : valueOk intLike ⟨.number, .marked ["m"] (.unk (.num .u (some ⟨.fin false 1 0 64, true⟩) none))⟩ = true :=
+  rfl
+
+end Bridge
+
+/-! ## "a constraint that contradicts … earlier constraints is rejected": nullness within ONE builder chain
+
+`NotNull()` / `Null()` check the contradiction against the BUILDER'S work-in-progress record (`b.wip.null()`), so it
+is caught when both are stated in one chain — `v.Refine().Null()…NotNull()` — although the range of the value
+being refined (`b.orig.Range()`) knows nothing of the first call.  For every oracle, every receiver other than
+`cty.DynamicVal`, any accepted calls in between. -/
+
+/-- `Null()`, then any accepted calls, then `NotNull()`: the `NotNull()` panics; the chain is never accepted. -/
+theorem null_then_notNull_panics [EqOracle] (b : Builder) (hd : b.isDyn = false) (mid rest : List RefineCall) :
+    (∀ b2, run b (.null :: mid) = .ok b2 → ∃ w, step b2 .notNull = .panic w) ∧
+    ∀ b', run b (.null :: (mid ++ .notNull :: rest)) ≠ .ok b' := D05.null_then_notNull hd mid rest
+
+/-- `NotNull()`, then any accepted calls, then `Null()`: the `Null()` panics; the chain is never accepted. -/
+theorem notNull_then_null_panics [EqOracle] (b : Builder) (hd : b.isDyn = false) (mid rest : List RefineCall) :
+    (∀ b2, run b (.notNull :: mid) = .ok b2 → ∃ w, step b2 .null = .panic w) ∧
+    ∀ b', run b (.notNull :: (mid ++ .null :: rest)) ≠ .ok b' := D05.notNull_then_null hd mid rest
+
+/-- The invariant behind both: once nullness is decided in a chain, every accepted call keeps it in the builder's
+own record. -/
+theorem nullness_is_kept [EqOracle] (b b' : Builder) (cs : List RefineCall) (hd : b.isDyn = false)
+    (hn : b.wip.nullness ≠ .u) (h : run b cs = .ok b') : b'.wip.nullness = b.wip.nullness :=
+  D05.run_keeps_nullness hd hn h
+
+-- non-vacuity: on the unknown list, `Null()` is accepted, so is a length bound after it, and then `NotNull()` panics
+example : (@run textOracle sampleList [.null, .lenLower 3]).isOk = true ∧
+    (@run textOracle sampleList [.null, .lenLower 3, .notNull]).isPanic = true := ⟨rfl, rfl⟩
+
+/-! ## the other entry points: `RefineWith`, `RefineNotNull`
+
+`Value.RefineWith(refiners...)` and `Value.RefineNotNull()` (modelled after the Go control flow in
+`CtyModel/RefineWith.lean`, diffed against the code as `rfn.with` / `rfn.nn`) are the builder chain in other
+clothes, for every oracle — so every theorem above about `refine v cs` is a theorem about them. -/
+
+/-- `RefineWith` with refiners that return the builder they were given is `Refine()`, all their calls in order,
+`NewValue()`; with no refiner at all the receiver itself comes back; a refiner that returns another builder is
+never accepted. -/
+theorem refineWith_is_refine [EqOracle] (v : Value) (rs : List D05.Refiner) :
+    (rs ≠ [] → rs.all (·.same) = true → D05.refineWith v rs = refine v (rs.flatMap (·.calls))) ∧
+    D05.refineWith v [] = .ok v ∧
+    (rs.any (fun r => !r.same) = true → ∀ w, D05.refineWith v rs ≠ .ok w) :=
+  ⟨D05.refineWith_same, rfl, fun h _ => D05.refineWith_different h⟩
+
+/-- `RefineNotNull()` is `Refine().NotNull().NewValue()`. -/
+theorem refineNotNull_is_refine [EqOracle] (v : Value) : D05.refineNotNull v = refine v [.notNull] :=
+  D05.refineNotNull_eq v
+
+/-- e.g. "never changes its type, never widens its range" for `RefineWith`, for exact number equality. -/
+theorem refineWith_narrows [ExactOracle] (v w : Value) (rs : List D05.Refiner)
+    (h : D05.refineWith v rs = .ok w) : w.ty = v.ty ∧ ∀ x, γV w x = true → γV v x = true := by
+  by_cases hne : rs = []
+  · subst hne
+    have : w = v := by simpa [D05.refineWith] using h.symm
+    subst this
+    exact ⟨rfl, fun _ hx => hx⟩
+  · cases hany : rs.any (fun r => !r.same) with
+    | true => exact absurd h (D05.refineWith_different hany)
+    | false =>
+      have hs : rs.all (·.same) = true := by
+        rw [List.all_eq_true]
+        intro r hr
+        have := List.any_eq_false.mp hany r hr
+        simpa using this
+      rw [D05.refineWith_same hne hs] at h
+      exact ⟨type_preserved v w _ h, fun x hx => refine_narrows v w _ h x hx⟩
+
+-- non-vacuity: two refiners on an unknown number, accepted under the code's oracle
+example : (@D05.refineWith textOracle ⟨.number, .unk .unref⟩
+    [⟨[.notNull], true⟩, ⟨[.numLower (.known (.fin false 1 0 64)) true], true⟩]).isOk = true := rfl
 
 /-! ### the delimiter table is the one in the source (regenerated on every check) -/
 
@@ -612,6 +912,109 @@ example : Modelled ⟨.number, .marked ["m"] (.unk (.num .u (some ⟨.fin false 
   intro h; have := congrArg Res.isOk h; revert this; decide
 example : @Generated.RefineFns.step textOracle ⟨id, id⟩ sampleList (.lenLower 3) =
     .ok { sampleList with wip := .coll .u 3 maxInt } := by rfl
+
+
+/-! #### the bridge and the one-chain nullness clause, about the translated source -/
+section RegeneratedBridge
+open D05
+
+/-- `ext` touches string arguments only -/
+theorem callOk_ext (P : Num → Bool) (cs : List RefineCall) :
+    (cs.map ext).all (callOk P) = cs.all (callOk P) := by
+  induction cs with
+  | nil => rfl
+  | cons c cs ih =>
+    simp only [List.map, List.all_cons, ih]
+    cases c <;> rfl
+
+omit [Strings] in
+/-- a panic of the model is a panic of the translated source -/
+theorem panic_of_generated {α} {g m : Res α} (h : er g = er m) {w : String} (hm : m = .panic w) :
+    g.isPanic = true := by
+  rw [hm] at h
+  cases g <;> simp [er] at h ⊢
+  rfl
+
+/-- "never widens its range", about the translated source run under THE CODE'S number equality, on integer inputs -/
+theorem narrows_code_integers_generated (b b' : Builder) (cs : List RefineCall) (hb : builderOk intLike b = true)
+    (hc : cs.all (callOk intLike) = true) (h : @Generated.RefineFns.run textOracle _ b cs = .ok b') (x : Conc)
+    (hx : γB b' x = true) : γB b x = true :=
+  narrows_code_integers b b' (cs.map ext) hb (by rw [callOk_ext]; exact hc)
+    (ok_of_generated (@run_eq textOracle _ cs b) h) x hx
+
+/-- end-to-end exactness, about the translated source under THE CODE'S number equality, on integer inputs -/
+theorem refine_exact_code_integers_generated (v w : Value) (cs : List RefineCall) (hm : Modelled v)
+    (hk : v.unmark.isKnown = false) (hd : isDynVal v.unmark = false)
+    (hdr : (cs.map ext).all (fun c => !c.dropped) = true) (hv : valueOk intLike v = true)
+    (hc : cs.all (callOk intLike) = true) (h : @Generated.RefineFns.refine textOracle _ v cs = .ok w) (x : Conc)
+    (hx : x.fits = true) : γV w x = (γV v x && (cs.map ext).all (fun c => den c x)) :=
+  refine_exact_code_integers v w (cs.map ext) hk hd hdr hv (by rw [callOk_ext]; exact hc)
+    (ok_of_generated (@refine_eq textOracle _ v cs hm) h) x hx
+
+/-- the end-to-end `Range()` statement, about the translated source under THE CODE'S number equality -/
+theorem refine_range_exact_code_integers_generated (v w : Value) (cs : List RefineCall) (hm : Modelled v)
+    (hk : v.unmark.isKnown = false) (hd : isDynVal v.unmark = false)
+    (hdr : (cs.map ext).all (fun c => !c.dropped) = true) (hv : valueOk intLike v = true)
+    (hc : cs.all (callOk intLike) = true) (h : @Generated.RefineFns.refine textOracle _ v cs = .ok w) :
+    ∃ vr, range w.unmark = .ok vr ∧ vr.ty = v.ty ∧
+      ∀ x, x.fits = true → vr.admitsN x = (γV v x && (cs.map ext).all (fun c => den c x)) :=
+  refine_range_exact_code_integers v w (cs.map ext) hk hd hdr hv (by rw [callOk_ext]; exact hc)
+    (ok_of_generated (@refine_eq textOracle _ v cs hm) h)
+
+/-- … and under any exact oracle -/
+theorem refine_range_exact_generated [ExactOracle] (v w : Value) (cs : List RefineCall) (hm : Modelled v)
+    (hk : v.unmark.isKnown = false) (hd : isDynVal v.unmark = false)
+    (hdr : (cs.map ext).all (fun c => !c.dropped) = true) (h : Generated.RefineFns.refine v cs = .ok w) :
+    ∃ vr, range w.unmark = .ok vr ∧ vr.ty = v.ty ∧
+      ∀ x, x.fits = true → vr.admitsN x = (γV v x && (cs.map ext).all (fun c => den c x)) :=
+  refine_range_exact v w (cs.map ext) hk hd hdr (ok_of_generated (refine_eq v cs hm) h)
+
+/-- contradictions are rejected — the translated source PANICS — under THE CODE'S number equality, on integer inputs -/
+theorem rejects_contradiction_code_integers_generated (b : Builder) (c : RefineCall) (hw : b.wf = true)
+    (hl : b.wip.lenOk = true) (hr : (ext c).isRange = true) (hx : (ext c).exclusiveInfinite = false)
+    (hb : builderOk intLike b = true) (hc : callOk intLike c = true)
+    (h1 : ∃ x, x ≠ .null ∧ γB b x = true) (h2 : ∀ x, x ≠ .null → (γB b x && den (ext c) x) = false)
+    (b' : Builder) : @Generated.RefineFns.step textOracle _ b c ≠ .ok b' := fun h =>
+  rejects_contradiction_code_integers b (ext c) hw hl hr hx hb
+    (by have := callOk_ext intLike [c]; simp only [List.map, List.all_cons, List.all_nil, Bool.and_true] at this
+        rw [this]; exact hc) h1 h2 b'
+    (ok_of_generated (@step_eq textOracle _ b c) h)
+
+/-- `Null()`, accepted calls, `NotNull()` in ONE chain of the translated source: the `NotNull()` panics and the
+chain is never accepted — the translated `NotNull` reads the builder's `wip`, not `orig.Range()` -/
+theorem null_then_notNull_panics_generated [EqOracle] (b : Builder) (hd : b.isDyn = false)
+    (mid rest : List RefineCall) :
+    (∀ b2, Generated.RefineFns.run b (.null :: mid) = .ok b2 →
+      (Generated.RefineFns.step b2 .notNull).isPanic = true) ∧
+    ∀ b', Generated.RefineFns.run b (.null :: (mid ++ .notNull :: rest)) ≠ .ok b' := by
+  obtain ⟨k1, k2⟩ := null_then_notNull_panics b hd (mid.map ext) (rest.map ext)
+  refine ⟨fun b2 h => ?_, fun b' h => ?_⟩
+  · obtain ⟨w, hw⟩ := k1 b2 (ok_of_generated (run_eq (.null :: mid) b) h)
+    exact panic_of_generated (step_eq b2 .notNull) hw
+  · refine k2 b' ?_
+    have := ok_of_generated (run_eq (.null :: (mid ++ .notNull :: rest)) b) h
+    simpa [ext] using this
+
+/-- the mirror image: `NotNull()`, accepted calls, `Null()` -/
+theorem notNull_then_null_panics_generated [EqOracle] (b : Builder) (hd : b.isDyn = false)
+    (mid rest : List RefineCall) :
+    (∀ b2, Generated.RefineFns.run b (.notNull :: mid) = .ok b2 →
+      (Generated.RefineFns.step b2 .null).isPanic = true) ∧
+    ∀ b', Generated.RefineFns.run b (.notNull :: (mid ++ .null :: rest)) ≠ .ok b' := by
+  obtain ⟨k1, k2⟩ := notNull_then_null_panics b hd (mid.map ext) (rest.map ext)
+  refine ⟨fun b2 h => ?_, fun b' h => ?_⟩
+  · obtain ⟨w, hw⟩ := k1 b2 (ok_of_generated (run_eq (.notNull :: mid) b) h)
+    exact panic_of_generated (step_eq b2 .null) hw
+  · refine k2 b' ?_
+    have := ok_of_generated (run_eq (.notNull :: (mid ++ .null :: rest)) b) h
+    simpa [ext] using this
+
+-- the translated source, run under the code's oracle: `Null()` then a length bound is accepted, then `NotNull()` panics
+example : (@Generated.RefineFns.run textOracle ⟨id, id⟩ sampleList [.null, .lenLower 3]).isOk = true ∧
+    (@Generated.RefineFns.run textOracle ⟨id, id⟩ sampleList [.null, .lenLower 3, .notNull]).isPanic = true := by
+  decide
+
+end RegeneratedBridge
 
 end Regenerated
 
